@@ -649,7 +649,18 @@ func (m *MonC06) OnEnd(w *World) []Violation {
 				m.class("obligation_" + tr.Kind)
 				// the re-request
 				var rq *LogEntry
-				for j := tr.T + 1; j < len(log); j++ {
+				// an access request for the subscription that is in flight when the
+				// trigger arrives serves the re-check (DESIGN 3.6: a trigger between
+				// request and answer does not invalidate the answer)
+				for k := range b.answers {
+					a := &b.answers[k]
+					if a.CID == c.CID && a.Name == name && a.Query == q && a.ReqT < tr.T && a.T > tr.T {
+						rq = &log[a.ReqT]
+						m.class("recheck_rides_on_pending_request")
+						break
+					}
+				}
+				for j := tr.T + 1; j < len(log) && rq == nil; j++ {
 					e := &log[j]
 					if e.Kind == "mq_req" && e.Subject == "access."+name && e.CID == c.CID && e.Query == q {
 						rq = e
@@ -695,21 +706,38 @@ func (m *MonC06) OnEnd(w *World) []Violation {
 					vs = append(vs, Violation{Property: "C06", Class: "reaccess_stale_token", Conn: c.Idx, RID: rid, T: rq.T, Step: rq.Step,
 						Message: fmt.Sprintf("c%d: access re-request for %s after the %s trigger carries token %s, current token is %s", c.Idx, rid, tr.Kind, orNone(got), orNone(want))})
 				}
-				// the verdict
-				var ans *accessAnswer
+				// the verdict: several access requests for the same connection and resource may
+				// be in flight (other requests on the rid share or add their own); the earliest
+				// answer bounds the no-leak window, the latest decides about revocation
+				var ans, first *accessAnswer
+				mixed := false
 				for k := range b.answers {
-					if b.answers[k].ReqT == rq.T {
-						ans = &b.answers[k]
+					a := &b.answers[k]
+					if a.CID == c.CID && a.Name == name && a.Query == q && a.T > tr.T && (a.ReqT >= rq.T) {
+						if first == nil {
+							first = a
+						}
+						if ans != nil && (ans.HasRes && ans.Get) != (a.HasRes && a.Get) {
+							mixed = true
+						}
+						ans = a
 					}
+				}
+				if mixed {
+					// verdicts of several overlapping access requests disagree and cannot be
+					// attributed to the re-check from the boundary alone
+					m.class("mixed_verdicts_skipped")
+					continue
 				}
 				if ans == nil {
 					m.class("verdict_never_arrived")
 					continue
 				}
+				leakEnd := first.T
 				// no event that reached the gateway after the trigger may be framed before the verdict
 				leaked := false
 				for _, ev := range c.Ref.Events {
-					if ev.RID != rid || ev.T <= tr.T || ev.T >= ans.T {
+					if ev.RID != rid || ev.T <= tr.T || ev.T >= leakEnd {
 						continue
 					}
 					dm := asMap(ev.Data)
@@ -727,14 +755,14 @@ func (m *MonC06) OnEnd(w *World) []Violation {
 						if del[x] == int(seq) && dts[x] > tr.T {
 							leaked = true
 							vs = append(vs, Violation{Property: "C06", Class: "event_leaked_before_verdict", Conn: c.Idx, RID: rid, T: ev.T, Step: w.stepOfT(ev.T),
-								Message: fmt.Sprintf("c%d: custom event seq %d for %s reached the gateway at t=%d, after the %s trigger (t=%d), and was delivered at t=%d before the new access verdict (t=%d)", c.Idx, seq, rid, dts[x], tr.Kind, tr.T, ev.T, ans.T)})
+								Message: fmt.Sprintf("c%d: custom event seq %d for %s reached the gateway at t=%d, after the %s trigger (t=%d), and was delivered at t=%d before the new access verdict (t=%d)", c.Idx, seq, rid, dts[x], tr.Kind, tr.T, ev.T, leakEnd)})
 						}
 					}
 				}
 				_ = leaked
 				for x, dt := range c3.deliveredT[name] {
 					_ = x
-					if dt > tr.T && dt < ans.T {
+					if dt > tr.T && dt < leakEnd {
 						m.nontriv = true
 						m.class("events_inside_recheck_window")
 						break
